@@ -20,12 +20,19 @@ fn gen_archive(rng: &mut rand_chacha::ChaCha8Rng, cfg: &Cfg, allow_dups: bool) -
         let k = rng.gen_range(0..pool.len());
         e.name = if allow_dups && rng.gen_bool(0.15) { pool[k].to_string() } else { pool.remove(k).to_string() };
         if e.kind == Kind::Hardlink || e.kind == Kind::Symlink { e.link = ["a.txt", "../up", "dir/a.txt"][rng.gen_range(0..3)].into(); }
+        // link targets beyond 1 KiB (a Linux symlink may hold up to 4095 bytes), with a multi-byte character across the 1024th byte
+        if e.kind == Kind::Symlink && rng.gen_bool(0.3) { e.link = format!("{}ü{}", "seg/".repeat(255), "/tail".repeat(90)); }
         specs.push(e);
     }
     let mut a = Archive::write_header(Vec::new()).unwrap();
     let mut i = 0;
     let mut layout = vec![];
     while i < specs.len() {
+        // an empty solid block (what `delete --keep-solid` of a block's only entry leaves behind) in front of further entries
+        if rng.gen_bool(0.15) {
+            a.add_entry(SolidEntryBuilder::new(cfg.options()).unwrap().build().unwrap()).unwrap();
+            layout.push("solid0".into());
+        }
         if rng.gen_bool(0.3) {
             let k = rng.gen_range(1..=(specs.len() - i).min(3));
             let mut sb = SolidEntryBuilder::new(cfg.options()).unwrap();
